@@ -21,7 +21,7 @@ def norm_out(b):
 
 
 def norm_world(b):
-    return re.sub(re.escape(core.worker_dir().encode()) + rb"/[a-z]+(?=/)", b"<world>", b)
+    return re.sub(re.escape(core.worker_dir().encode()) + rb"/[a-z0-9]+(?=/)", b"<world>", b)
 
 
 # ------------------------------------------------------------------ workloads
@@ -203,7 +203,7 @@ def gen_env(rng, batch, nprocs, same_seed=False):
     # how the user spells the entry file on the command line (the same spelling in every process of the case)
     env["spell"] = rng.weighted([("", 6), ("./", 2), (".//", 1), ("././", 1), ("abs", 1), ("absgone", 1)])
     # environment variables that must not matter
-    env["vars"] = rng.weighted([({}, 8), ({"CLICOLOR_FORCE": "1"}, 1), ({"SIMWORLD_CLOCK": "freeze"}, 1)])
+    env["vars"] = rng.weighted([({}, 8), ({"CLICOLOR_FORCE": "1"}, 1), ({"SIMWORLD_CLOCK": "tick"}, 1)])
     if batch in ("benign", "hard") and rng.chance(1, 6):
         # the artefacts are read-only by the time they are executed (the last process only reads)
         env["plans"][-1]["rules"].append({"id": "ro", "call": "open", "pat": "*.mmm", "nth": "*", "act": "rdonly"})
